@@ -395,9 +395,12 @@ func parseOps(s string) []op {
 func Main(c06only bool) {
 	a := lib.ParseArgs()
 	if v := os.Getenv(lsnChildEnv); v != "" {
-		if v == "slow" {
+		switch v {
+		case "slow":
 			lsnSlowChild(a)
-		} else {
+		case "fallback":
+			lsnFallbackChild(a)
+		default:
 			lsnChild(a)
 		}
 		return
@@ -406,7 +409,7 @@ func Main(c06only bool) {
 	w = lib.NewWriter(a.Out)
 	defer w.Close()
 	if a.Replay != "" {
-		var lsnLines, slowLines [][3]string
+		var lsnLines, slowLines, fbLines [][3]string
 		fullSeen := map[string]bool{}
 		for _, l := range lib.ReplayLines(a.Replay) {
 			switch l[0] {
@@ -427,24 +430,30 @@ func Main(c06only bool) {
 				lsnLines = append(lsnLines, l)
 			case "lsn.slowlink":
 				slowLines = append(slowLines, l)
+			case "lsn.fallback":
+				fbLines = append(fbLines, l)
 			case "tss.lockdiscipline":
 				lockDiscipline()
 			}
 		}
 		if len(lsnLines) > 0 {
-			lsnParent(a, false)()
+			lsnParent(a, "")()
 		}
 		if len(slowLines) > 0 {
-			lsnParent(a, true)()
+			lsnParent(a, "slow")()
+		}
+		if len(fbLines) > 0 {
+			lsnParent(a, "fallback")()
 		}
 		return
 	}
 	// the listener histories run in a child process (real clock, real sockets) next to the
 	// store-level kinds of this process
-	wait, waitSlow := func() {}, func() {}
+	wait, waitSlow, waitFb := func() {}, func() {}, func() {}
 	if c06only {
-		wait = lsnParent(a, false)
-		waitSlow = lsnParent(a, true)
+		wait = lsnParent(a, "")
+		waitSlow = lsnParent(a, "slow")
+		waitFb = lsnParent(a, "fallback")
 	}
 	lockDiscipline()
 	r := lib.NewRng(a.Seed)
@@ -487,5 +496,6 @@ func Main(c06only bool) {
 	}
 	wait()
 	waitSlow()
+	waitFb()
 	fmt.Fprintf(os.Stderr, "c06: %d cases\n", w.N())
 }
